@@ -48,7 +48,7 @@ def bounds(tier):
 # A value spec is a nested tuple: ('leaf', s) | ('cfg', V) | ('af', V) |
 # ('par', V) | ('list1', V) | ('list2', V) | ('tuple', V) | ('dict', V)
 KINDS = ('cfg', 'af', 'par', 'list1', 'list2', 'tuple', 'dict',
-         'afp', 'afv', 'parp')   # ...p: positional-only arg, ...v: via *args
+         'afp', 'afv', 'parp', 'aflaky')   # ...p: positional-only arg, ...v: via *args
 
 
 def gen(depth, af_ok=True):
@@ -56,12 +56,12 @@ def gen(depth, af_ok=True):
   if depth == 0:
     return
   for k in KINDS:
-    if k in ('af', 'afp', 'afv') and not af_ok:
+    if k in ('af', 'afp', 'afv', 'aflaky') and not af_ok:
       continue
     child_af_ok = af_ok
     if k == 'cfg':
       child_af_ok = False
-    if k in ('af', 'par', 'afp', 'afv', 'parp'):
+    if k in ('af', 'par', 'afp', 'afv', 'parp', 'aflaky'):
       child_af_ok = True
     for v in gen(depth - 1, child_af_ok):
       yield (k, v)
@@ -83,6 +83,8 @@ def materialize(spec, leafval='L'):
     return fdl.ArgFactory(N.node_b, x=v)
   if k == 'par':
     return fdl.Partial(N.node_nd, y=v)
+  if k == 'aflaky':
+    return fdl.ArgFactory(N.flaky, x=v)
   if k == 'afp':
     return fdl.ArgFactory(N.node_pos, v)
   if k == 'afv':
@@ -258,9 +260,11 @@ def objects_by_path(v, path=(), out=None):
 
 
 CALLS = {
-    'kw': [('noargs', (), {}), ('override_x', (), {'x': 'ox'}),
+    'kw': [('noargs', (), {}), ('noargs_failing', (), {}),
+           ('override_x', (), {'x': 'ox'}),
            ('override_y', (), {'y': 'oy'}), ('extra_pos', ('pos',), {})],
-    'pos': [('noargs', (), {}), ('override_k', (), {'k': 'ok'}),
+    'pos': [('noargs', (), {}), ('noargs_failing', (), {}),
+            ('override_k', (), {'k': 'ok'}),
             ('override_a', (), {'a': 'oa'}), ('extra_pos', ('pos',), {})],
     'nd': [('noargs', (), {}), ('supply_x', (), {'x': 'sx'}),
            ('override_y', (), {'y': 'oy'}), ('extra_pos', ('pos',), {})],
@@ -311,10 +315,20 @@ def check_case(form, s1, s2, ncalls, res, case):
     return
   calls = CALLS[form]
   for seq in itertools.product(range(len(calls)), repeat=ncalls):
+    # every call sequence starts from a freshly built callable (the built
+    # callable may carry state from earlier calls)
+    root_s = make_root(form, s1, s2)
+    vfx.reset()
+    N.FLAKY['fail'] = False
+    real = fdl.build(root_s)
+    vfx.reset()
+    ref = ref_build(root_s, {})
     real_results = []
     ref_results = []
     for ci in seq:
       name, cargs, ckw = calls[ci]
+      # in a "failing" call every flaky factory raises
+      N.FLAKY['fail'] = name.endswith('_failing')
       try:
         r = ('ok', real(*cargs, **ckw))
       except Exception as e:  # pylint: disable=broad-except
@@ -323,20 +337,21 @@ def check_case(form, s1, s2, ncalls, res, case):
         f = ('ok', ref(*cargs, **ckw))
       except Exception as e:  # pylint: disable=broad-except
         f = ('raise', type(e).__name__)
+      N.FLAKY['fail'] = False
       res.transitions += 1
-      if r[0] != f[0]:
+      if r[0] != f[0] or (r[0] == 'raise' and r[1] != f[1]):
         res.violation(
             f'C04/call-outcome/{form}/{name}',
-            f'{case} call {name}: real {r[0]} {r[1]!r}, reference {f[0]} '
-            f'{f[1]!r}', case)
+            f'{case} call {name} (sequence {[calls[i][0] for i in seq]}): '
+            f'real {r[0]} {r[1]!r}, reference {f[0]} {f[1]!r}', case)
         return
       if r[0] == 'ok':
         nr, nf = normalize(r[1]), normalize(f[1])
         if nr != nf:
           res.violation(
               f'C04/call-result/{form}/{name}',
-              f'{case} call {name} (sequence {seq}): real {r[1]!r} '
-              f'reference {f[1]!r}', case)
+              f'{case} call {name} (sequence {[calls[i][0] for i in seq]}): '
+              f'real {r[1]!r} reference {f[1]!r}', case)
           return
       real_results.append(r)
       ref_results.append(f)
